@@ -726,7 +726,7 @@ func (in *interp) setCell(p *value, v value) {
 	if in.sched != nil {
 		in.raceCheck(p, true)
 	}
-	if in.logging {
+	if in.logging && !in.ar.fresh(p) {
 		in.undo = append(in.undo, undoEntry{p: p, old: *p})
 	}
 	*p = v
